@@ -1,3 +1,8 @@
-import SamlVerif.Model.Prelude
-import SamlVerif.Model.SPStruct
-import SamlVerif.Proofs.SPStruct
+import SamlVerif.Props.C02
+import SamlVerif.Props.C03
+import SamlVerif.Props.C04
+import SamlVerif.Props.C05
+import SamlVerif.Props.C09
+import SamlVerif.Props.C10
+import SamlVerif.Props.C11
+import SamlVerif.Props.C15
